@@ -34,7 +34,8 @@ OR THE USE OR OTHER DEALINGS IN THE SOFTWARE.
 #define EndOfText 0x03
 #define MsgTypeN2k 0x93
 
-#define MaxActisenseMsgBuf 400
+// Worst case every byte is escaped: <10><02> + 2*(13 header bytes + MaxDataLen data bytes) + 2 (CRC) + <10><03>
+#define MaxActisenseMsgBuf (2+2*(13+tN2kMsg::MaxDataLen)+2+2)
 
 // NMEA2000 uses little endian for binary data. Swap the endian if we are
 // running on a big endian machine. There is no reliable, portable compile
@@ -1119,7 +1120,7 @@ void tN2kMsg::Print(N2kStream *port, bool NoData) const {
 }
 
 //*****************************************************************************
-void AddByteEscapedToBuf(unsigned char byteToAdd, uint8_t &idx, unsigned char *buf, int &byteSum)
+void AddByteEscapedToBuf(unsigned char byteToAdd, uint16_t &idx, unsigned char *buf, int &byteSum)
 {
   buf[idx++]=byteToAdd;
   byteSum+=byteToAdd;
@@ -1135,7 +1136,7 @@ void AddByteEscapedToBuf(unsigned char byteToAdd, uint8_t &idx, unsigned char *b
 void tN2kMsg::SendInActisenseFormat(N2kStream *port) const {
   unsigned long _PGN=PGN;
   unsigned long _MsgTime=MsgTime;
-  uint8_t msgIdx=0;
+  uint16_t msgIdx=0; // frame can be up to MaxActisenseMsgBuf (>255) bytes
   int byteSum = 0;
   uint8_t CheckSum;
   unsigned char ActisenseMsgBuf[MaxActisenseMsgBuf];
